@@ -21,7 +21,7 @@ from .. import jweworld as JW      # import only: nothing in here registers the 
 
 ID = "C05"
 LEVEL = "exploration"
-RUNS = {"quick": 6400, "thorough": 200000}
+RUNS = {"quick": 2800, "thorough": 120000}
 BUDGET = {"quick": 70, "thorough": 1500}
 RULE = ("one run = one history of 20-200 calls on shared state (process-global registries, 4 shared registry objects, the "
         "default registries) with seeded operation, serialisation, algorithm names (registered / unknown / non-string) and "
@@ -492,6 +492,36 @@ def run_history(label: str, ops: list, initial_state: dict, stop_at: int | None 
 
 
 def run(rng: Rng, tier: str, index: int) -> RunResult:
+    """Draft-algorithm registration is process-global and cannot be undone, so every history runs in a forked child of
+    the (never registering) worker: each history starts from the pristine state whatever the worker executed before."""
+    import os
+    import pickle
+    K.warm_rsa_cache()
+    r, w = os.pipe()
+    pid = os.fork()
+    if pid == 0:
+        code = 0
+        try:
+            os.close(r)
+            data = pickle.dumps(_run(rng, tier, index))
+            with os.fdopen(w, "wb") as f:
+                f.write(data)
+        except BaseException:
+            import traceback
+            traceback.print_exc()
+            code = 3
+        finally:
+            os._exit(code)
+    os.close(w)
+    with os.fdopen(r, "rb") as f:
+        data = f.read()
+    _, status = os.waitpid(pid, 0)
+    if status != 0 or not data:
+        raise RuntimeError("C05 history child failed (status %r)" % (status,))
+    return pickle.loads(data)
+
+
+def _run(rng: Rng, tier: str, index: int) -> RunResult:
     res = RunResult()
     tr = Trace()
     _sync_state()
